@@ -18,6 +18,9 @@ mod warning;
 
 pub mod ast;
 
+#[cfg(feature = "verif-hooks")]
+pub mod verif_hooks;
+
 pub use diag::{Diagnostic, DiagnosticKind, Renderer};
 pub use error::Error;
 pub use fmt::Formatter;
